@@ -268,6 +268,15 @@ def switch_edges(fn, bb):
     return [(v, s) for v, s in t[2]] + [("otherwise", t[3])]
 
 
+def succ_for_value(fn, bb, value):
+    """Successor taken when the switch operand equals `value` (explicit arm, else `otherwise`)."""
+    t = fn.blocks[bb]["t"]
+    for v, s in t[2]:
+        if v == value:
+            return s
+    return t[3]
+
+
 def bool_edge_value(fn, bb, succ):
     """Truth value of the switch operand on the edge to `succ` (None if ambiguous)."""
     vals = set()
@@ -711,10 +720,8 @@ def ok_block_after(fn, call):
                 if dl in fn.derives_from(l):
                     good = {"core::ops::control_flow::ControlFlow": 0, "core::result::Result": 0,
                             "core::option::Option": 1}[info[2]]
-                    for v, s in switch_edges(fn, b):
-                        if v == good:
-                            return s
-                    return None
+                    s = succ_for_value(fn, b, good)
+                    return None if fn.is_unreachable_block(s) else s
             continue
         for s in fn.succ(b):
             dq.append(s)
